@@ -801,5 +801,8 @@ for _p in ("C20", "C13"):
     PROPS[_p]["rules"] = PROPS[_p]["rules"] + [rules_limits.rule_narrowed_ref_bounded]
     PROPS[_p]["explanation"] += " (NARROWREF) an int32 id parameter is compared with MAX_REF before it is narrowed to uint16 for an instance look-up."
 
+PROPS["C13"]["rules"] = PROPS["C13"]["rules"] + [rules_handles.rule_sd_file_id_halves]
+PROPS["C13"]["explanation"] += " (IDHALVES) the SD id validator compares the two copies of the file slot that a file id carries."
+
 NOT_APPLICABLE = {}
 
